@@ -473,7 +473,10 @@ func runEventsWorker(fx *evFixture, q *recQueue, f []string) string {
 				}
 				fx.ctl.next = op
 				q.calls, q.cur = nil, nil
-				fx.ssc.VerifProcessNextWorkItem()
+				if !fx.ssc.VerifProcessNextWorkItem() {
+					// false makes worker() return: with the queue still open that worker goroutine is gone for good
+					q.calls = append(q.calls, "workerexit")
+				}
 				key := fmt.Sprint(q.cur)
 				toks = append(toks, fmt.Sprintf("p:%s:%s:%d:%d", key, strings.Join(q.calls, "+"), q.NumRequeues(q.cur), q.Len()))
 				q.cur = nil
